@@ -373,6 +373,9 @@ func Supervise(self string, chk *Check, tier string) int {
 		v := viol[s]
 		if k, ok := knownSig[s]; ok {
 			fmt.Printf("KNOWN-FINDING: property=%s %s [signature %s, %d cases]\n", chk.ID, SanitizeLine(k.What), SanitizeLine(s), v.Count)
+			if os.Getenv("VERIF_SHOW_KNOWN") != "" {
+				fmt.Printf("  message: %s\n", SanitizeLine(v.Message))
+			}
 			continue
 		}
 		newViol++
